@@ -578,12 +578,16 @@ def state_value_set(ctx, rid):
                 ok = lit(rn) == -1
                 msg = "sign flip" if ok else "state multiplied by `%s`" % rhs
             elif a['op'] == '=':
-                if rn.get('kind') == 'ArraySubscriptExpr':
-                    ok = unparen(S(rn['inner'][0])) == 'states'
-                elif rn.get('kind') == 'ConditionalOperator':
-                    ok = {lit(rn['inner'][1]), lit(rn['inner'][2])} == {1, -1}
-                else:
-                    ok = lit(rn) in (1, -1)
+                def pm1(e):
+                    # every value the expression can take is +-1 or an element of the supplied states
+                    e = strip(e)
+                    if e.get('kind') == 'ArraySubscriptExpr':
+                        return unparen(S(f.expand(e['inner'][0]))).split('+')[0].split('[')[0] == 'states' or \
+                            unparen(S(e['inner'][0])) == 'states'
+                    if e.get('kind') == 'ConditionalOperator':
+                        return pm1(e['inner'][1]) and pm1(e['inner'][2])
+                    return lit(e) in (1, -1)
+                ok = pm1(rn)
                 msg = "assigns the supplied state / a +-1 literal" if ok else "state assigned `%s`, which is not +-1 or the supplied state" % rhs
             else:
                 ok, msg = False, "state updated with `%s`" % a['op']
